@@ -321,7 +321,9 @@ class ContentMetaAttributeValue(AttributeValueWithCharsetSubstitution):
     #: Match the 'charset' argument inside the 'content' attribute
     #: of a <meta> tag.
     #: :meta private:
-    CHARSET_RE: Pattern[str] = re.compile(r"((^|;)\s*charset=)([^;]*)", re.M)
+    CHARSET_RE: Pattern[str] = re.compile(
+        r"((^|;)\s*charset\s*=\s*)([^;]*)", re.M | re.I
+    )
 
     def __new__(cls, original_value: str) -> Self:
         cls.CHARSET_RE.search(original_value)
